@@ -242,7 +242,7 @@ func vsdWhere(dump string) vsdAt {
 			at.Subh = "sel"
 		case vsdHas(b, "(*blockManager).blockHandler"):
 			switch {
-			case vsdHas(b, "onBlockConnected"), vsdHas(b, "onBlockDisconnected"):
+			case vsdHas(b, "onBlockDisconnected"):
 				at.Blkh = "ntfn"
 			case vsdHas(b, "handleHeadersMsg"), vsdHas(b, "handleInvMsg"), vsdHas(b, "handleNewPeerMsg"),
 				vsdHas(b, "handleDonePeerMsg"):
@@ -254,6 +254,8 @@ func vsdWhere(dump string) vsdAt {
 			switch {
 			case vsdHas(b, "sync.(*Cond).Wait"):
 				at.Cfh = "cond"
+			case vsdHas(b, "onBlockConnected"):
+				at.Cfh = "ntfn"
 			case vsdHas(b, "queryAllPeers"):
 				at.Cfh = "qall"
 			case vsdHas(b, "(*ChainService).GetBlock"):
@@ -714,26 +716,28 @@ func vsdRunOne(p vsdPathIn, scratch string) (out vsdPathOut, rerr error) {
 	}
 	stopSync := make(chan struct{})
 	var syncWG sync.WaitGroup
+	reorgAtStop := 0
 	if syncM == 0 && pool == vsdPResp {
-		// headers keep arriving; now and then a small reorganisation
+		// headers keep arriving; in two of three scenarios one
+		// reorganisation (2 deep, or nearly the whole chain) is fired at the
+		// moment of Stop: mid-reorganisation
+		switch r.rng.Intn(3) {
+		case 1:
+			reorgAtStop = 2
+		case 2:
+			reorgAtStop = r.tip - 5
+		}
+		r.info["reorg_at_stop"] = fmt.Sprint(reorgAtStop)
 		syncWG.Add(1)
-		reorg := r.rng.Intn(2) == 0
-		r.info["reorg"] = fmt.Sprint(reorg)
 		go func() {
 			defer syncWG.Done()
-			i := 0
 			for {
 				select {
 				case <-stopSync:
 					return
 				case <-time.After(time.Duration(1+r.rng.Intn(3)) * time.Millisecond):
 				}
-				i++
-				if reorg && i%7 == 3 {
-					n.Reorg(2, 3)
-				} else {
-					n.Extend(1)
-				}
+				n.Extend(1)
 			}
 		}()
 	}
@@ -764,6 +768,14 @@ func vsdRunOne(p vsdPathIn, scratch string) (out vsdPathOut, rerr error) {
 		at = vsdWhere(vsdDump())
 		at.Stop = ""
 	}
+	if reorgAtStop > 0 {
+		d := time.Duration(r.rng.Intn(60)) * time.Millisecond
+		r.info["reorg_delay_ms"] = fmt.Sprint(d.Milliseconds())
+		go func() {
+			time.Sleep(d)
+			n.Reorg(reorgAtStop, reorgAtStop+1)
+		}()
+	}
 	r.t0 = time.Now()
 	r.log(vsdAct{Op: "Stop", M: stop.M, At: at}, nil, "")
 	go func() {
@@ -779,9 +791,14 @@ func vsdRunOne(p vsdPathIn, scratch string) (out vsdPathOut, rerr error) {
 	}()
 	if pool == vsdPResp {
 		// the parked answers arrive around the moment of Stop
+		// (Stop reaches the subscription manager and the block manager
+		// about 50 ms after the call: UtxoScanner.Stop's 50 ms signal loop)
 		d := time.Duration(r.rng.Intn(40)) * time.Millisecond
-		if r.rng.Intn(3) == 0 {
+		switch r.rng.Intn(3) {
+		case 0:
 			d = 0
+		case 1:
+			d = time.Duration(44+r.rng.Intn(14)) * time.Millisecond
 		}
 		r.info["release_ms"] = fmt.Sprint(d.Milliseconds())
 		go func() { time.Sleep(d); nd.Release() }()
